@@ -12,3 +12,16 @@ add("C01", "exploration", "bounded-exhaustive enumeration of morphologies x conf
     "Trusts numpy.linalg.solve and the reference assembly in vf/refphys.py (cross-checked by C02 identities and C15 analytic cable theory); "
     "continuous parameters are covered by generic valuations plus the data-independence argument of DESIGN §4; shapes above the bound are not explored.",
     "DESIGN.md §7 C01")
+
+add("C02", "exploration", "bounded-exhaustive enumeration of morphologies x time steps x backends checked against physical identities (charge balance, reciprocity over all ordered pairs, maximum principle)",
+    "Every cell up to the bound x six time steps up to 1e9 ms x three backends is stepped on the real implementation and four identities that need no "
+    "reference solver are evaluated; reciprocity enumerates all ordered compartment pairs. Identities cannot share an error with a reference model.",
+    "Areas are the lateral cylinder areas in jaxley's documented units; generic valuations stand for all positive parameters (DESIGN §4).",
+    "DESIGN.md §7 C02")
+
+add("C09", "model_checking", "explicit-state exploration of all connect() creation histories up to depth 2-3 on real networks, each state compared with a reference simulator fed the request multiset",
+    "All sequences of connect calls over an 18-edge alphabet (autapse, fan-in, same-cell, cross-cell; three synapse types) are replayed on fresh real "
+    "networks; per-edge parameters go through three view APIs; two base networks make all three backends accept. States = canonical edge multisets, "
+    "so order-independence is decided for every permutation inside the bound.",
+    "Reference simulator vf/refsim.py mirrors the documented staggering/secant scheme (DESIGN §5 S1,S2); histories beyond depth 3 and other endpoints are not explored.",
+    "DESIGN.md §7 C09")
